@@ -14,8 +14,11 @@ def parsePairs (s : String) : Option (List (Nat × Int)) :=
     | [a, b] => do pure (← a.toNat?, ← b.toInt?)
     | _ => none
 
+/-- the pieces of `t` between the occurrences of the character `c` -/
+def splitCh (c : Char) (t : String) : List String := (t.split c).toList.map (·.copy)
+
 def parseIds (s : String) : Option (List Nat) :=
-  if s = "-" then some [] else (s.splitOn ",").mapM String.toNat?
+  if s = "-" then some [] else (splitCh ',' s).mapM String.toNat?
 
 def parseOp : List String → Option XOpI
   | ["create", ps] => do pure (.h (.create (← parsePairs ps)))
